@@ -1205,8 +1205,15 @@ fn check_whole_token(case: &TokenCase, out: &mut CaseOut) {
 
 // ---------------------------------------------------------------------------------------------
 
+fn seed_corpus_sdp(dir: &std::path::Path) {
+    for (i, c) in sample_strategy(&crate::gen::sdp::session(), 5, 250).into_iter().enumerate() {
+        let _ = std::fs::write(dir.join(format!("gen-{i:03}")), crate::refmodel::sdp::ref_print(&c));
+    }
+}
+
 pub fn property() -> Property {
     Property {
+        fuzz: vec![FuzzStage { target: "sdp", runs: 2_000_000, max_len: 4096, seed_corpus: seed_corpus_sdp }],
         id: "C19",
         rule: "roundtrip: a generated SessionDescription value is non-trivial when it has >=1 media section and at least one of: >=2 \
                different sections, a candidate / crypto line / ice-options, an Other/Ext token extending a well-known one, a numeric \
